@@ -14,7 +14,15 @@
  * Printing
  * ======================================================================== */
 
-void val_print(NanoValue v, FILE *out) {
+/* Containers can be made to contain themselves (e.g. an array pushed into itself),
+ * so nesting is printed down to a fixed depth only. */
+#define VAL_PRINT_MAX_DEPTH 64
+
+static void val_print_depth(NanoValue v, FILE *out, int depth) {
+    if (depth > VAL_PRINT_MAX_DEPTH) {
+        fprintf(out, "...");
+        return;
+    }
     switch (v.tag) {
         case TAG_VOID:
             fprintf(out, "void");
@@ -28,7 +36,8 @@ void val_print(NanoValue v, FILE *out) {
         case TAG_FLOAT: {
             /* Print without trailing zeros, but always with at least one decimal */
             double d = v.as.f64;
-            if (d == (long long)d && d >= -1e15 && d <= 1e15) {
+            /* range first: converting an out-of-range double to long long is undefined */
+            if (d >= -1e15 && d <= 1e15 && d == (long long)d) {
                 fprintf(out, "%.1f", d);
             } else {
                 fprintf(out, "%g", d);
@@ -53,7 +62,7 @@ void val_print(NanoValue v, FILE *out) {
                 fprintf(out, "[");
                 for (uint32_t i = 0; i < v.as.array->length; i++) {
                     if (i > 0) fprintf(out, ", ");
-                    val_print(v.as.array->elements[i], out);
+                    val_print_depth(v.as.array->elements[i], out, depth + 1);
                 }
                 fprintf(out, "]");
             } else {
@@ -68,7 +77,7 @@ void val_print(NanoValue v, FILE *out) {
                     if (v.as.sval->field_names && v.as.sval->field_names[i]) {
                         fprintf(out, "%s: ", vmstring_cstr(v.as.sval->field_names[i]));
                     }
-                    val_print(v.as.sval->fields[i], out);
+                    val_print_depth(v.as.sval->fields[i], out, depth + 1);
                 }
                 fprintf(out, "}");
             } else {
@@ -80,7 +89,7 @@ void val_print(NanoValue v, FILE *out) {
                 fprintf(out, "variant(%u", v.as.uval->variant);
                 for (uint32_t i = 0; i < v.as.uval->field_count; i++) {
                     fprintf(out, ", ");
-                    val_print(v.as.uval->fields[i], out);
+                    val_print_depth(v.as.uval->fields[i], out, depth + 1);
                 }
                 fprintf(out, ")");
             } else {
@@ -92,7 +101,7 @@ void val_print(NanoValue v, FILE *out) {
                 fprintf(out, "(");
                 for (uint32_t i = 0; i < v.as.tuple->count; i++) {
                     if (i > 0) fprintf(out, ", ");
-                    val_print(v.as.tuple->elements[i], out);
+                    val_print_depth(v.as.tuple->elements[i], out, depth + 1);
                 }
                 fprintf(out, ")");
             } else {
@@ -112,6 +121,10 @@ void val_print(NanoValue v, FILE *out) {
             fprintf(out, "unknown(%u)", v.tag);
             break;
     }
+}
+
+void val_print(NanoValue v, FILE *out) {
+    val_print_depth(v, out, 0);
 }
 
 void val_println(NanoValue v) {
